@@ -119,16 +119,19 @@ Definition int_of_str (s : str) : option Z := parse_int s.
 (* ---- tracked Json / array values: which (object, attribute) is notified when the value is edited in place ------------- *)
 Inductive tval : Type :=
 | TPlain (payload : Z)                      (* a plain dict / list / scalar *)
-| TTracked (owner attr payload : Z).        (* a TrackedValue: obj_ref() = owner, .attr = attr *)
-Definition tv_is_tracked (v : tval) : bool := match v with TTracked _ _ _ => true | TPlain _ => false end.
-Definition tv_owner_is (v : tval) (obj : Z) : bool := match v with TTracked o _ _ => o =? obj | TPlain _ => false end.
-Definition tv_attr_is (v : tval) (attr : Z) : bool := match v with TTracked _ a _ => a =? attr | TPlain _ => false end.
-Definition tv_payload (v : tval) : Z := match v with TTracked _ _ p => p | TPlain p => p end.
-Definition tv_notifies (v : tval) : option (Z * Z) := match v with TTracked o a _ => Some (o, a) | TPlain _ => None end.
-Definition tval_eqb (a b : tval) : bool :=
+| TTracked (owner attr payload : Z)         (* a TrackedValue: obj_ref() = owner, .attr = attr *)
+| TWrapped (inner : tval).                  (* Json(inner): the marker wrapper of pony.orm.ormtypes *)
+Definition tv_is_tracked (v : tval) : bool := match v with TTracked _ _ _ => true | _ => false end.
+Definition tv_owner_is (v : tval) (obj : Z) : bool := match v with TTracked o _ _ => o =? obj | _ => false end.
+Definition tv_attr_is (v : tval) (attr : Z) : bool := match v with TTracked _ a _ => a =? attr | _ => false end.
+Fixpoint tv_payload (v : tval) : Z := match v with TTracked _ _ p => p | TPlain p => p | TWrapped i => tv_payload i end.
+Definition tv_notifies (v : tval) : option (Z * Z) := match v with TTracked o a _ => Some (o, a) | _ => None end.
+Definition tv_unwrap (v : tval) : tval := match v with TWrapped i => i | _ => v end.
+Fixpoint tval_eqb (a b : tval) : bool :=
   match a, b with
   | TPlain p, TPlain q => p =? q
   | TTracked o a p, TTracked o' a' p' => (o =? o') && (a =? a') && (p =? p')
+  | TWrapped x, TWrapped y => tval_eqb x y
   | _, _ => false
   end.
 
